@@ -11,7 +11,7 @@ for f in ('patch.diff', 'demo.cpp', 'demo.sh', 'demo_output.txt', 'meta.json'):
 m = json.load(open(os.path.join(src, 'meta.json')))
 m['confirmed_by_author'] = dict(tests_pass_with_change=True, demo_differs_between_trees=True, patch_applies_to_repo_head=True)
 m['check_result'] = dict(detected='yes, after strengthening' if missed else 'yes', how=how, initially_missed=missed)
-m['round'] = {'': 1, '-b': 2, '-c': 3, '-d': 4, '-e': 5, '-f': 6, '-g': 7}.get(suf, 0)
+m['round'] = {'': 1, '-b': 2, '-c': 3, '-d': 4, '-e': 5, '-f': 6, '-g': 7, '-h': 8}.get(suf, 0)
 json.dump(m, open(os.path.join(dst, 'meta.json'), 'w'), indent=1)
 subprocess.run(['git', '-C', '/repo', 'worktree', 'remove', '--force', '/tmp/wt_' + pid])
 subprocess.run(['git', '-C', '/repo', 'worktree', 'prune'])
